@@ -97,7 +97,9 @@ class Unit:
                     Rule('R-CONST', r'return const_(reverse_)?iterator\( this', r'return const_\1iterator( const_cast< DynamicBitset*>( this)', 8),
                     Rule('R-AUTO-copy1', r'auto copy\( \*this\);', 'DynamicBitset copy( *this);', 1),
                     Rule('R-AUTO-copy3', r'auto  copy\( lhs\);', 'DynamicBitset  copy( lhs);', 3),
-                    Rule('R-THROW', r'throw std::(out_of_range|overflow_error)\([^;]*\);', 'CV_THROW( 1);', 3, flags=re.M | re.S)]
+                    Rule('R-THROW', r'throw std::(out_of_range|overflow_error)\([^;]*\);', 'CV_THROW( 1);', 3, flags=re.M | re.S),
+                    # the growth helper (added by the fix of the position overflow) throws from inside a helper: the path ends there
+                    Rule('R-THROW-cut', r'throw std::length_error\([^;]*\);', '{ cv_thrown = 2; __CPROVER_assume(0); }', (0, 1), flags=re.M | re.S)]
                    + common_rules(n_nns2=1, n_alias=0, n_default=0), pre=pre_c)
         # g++ witness for the typed `auto copy`: decltype(copy) is the class type
         w = scratch.write('witness/c12_auto.cpp', '#include <type_traits>\n#include "celma/container/dynamic_bitset.hpp"\n'
@@ -126,7 +128,7 @@ static size_t ref_count(const bool* b, size_t n) { size_t c = 0; for (size_t i =
 #define SAME_BELOW(d, b, lim, skip) for (size_t i = 0; i < V; ++i) if (i < (lim) && i != (skip)) __CPROVER_assert(d.mData.mBits[i] == b[i], "bits at other positions unchanged");
 // growth is (pos + 1) * 1.5 evaluated in double: positions for which that stays inside size_t (beyond, the real
 // vector throws length_error either way -- 'grow or throw' is satisfied and nothing is decidable by a contract)
-#define POSDOM(p) __CPROVER_assume((p) < (1UL << 62));
+#define POSDOM(p)   /* every position: a position too big for any vector must end in an exception (std::length_error), never in an access */
 #ifndef CV_KF_EXPR
 #define CV_KF_EXPR 1
 #endif
